@@ -1,7 +1,7 @@
 CONSTANTS
   FieldSet = {"f", "g.h"}
   DocSet = {"d1", "d2", "d3"}
-  StrTerms = {"a", "b"}
+  StrTerms = {"a", "ab"}
   NumTerms <- Halves7
   Bounds <- Bounds7
   MaxLen = 24
@@ -9,6 +9,8 @@ CONSTANTS
   Avoid = {"replace"}
 SPECIFICATION SimSpec
 INVARIANT Registered
+INVARIANT NoOpenIfAvoided
+INVARIANT OpenIsRemovedSinceAdded
 INVARIANT TypeOK
 INVARIANT EmitNode
 CHECK_DEADLOCK FALSE
